@@ -346,7 +346,22 @@ class Unit:
 
     def do_impl(self, kv):
         s = self.source_for(kv)
-        st, bo, en = s.find_impl(kv['header'], int(kv.get('nth', 0)))
+        if kv.get('has'):
+            # several impl blocks share this header: take the first one that defines `fn <has>`
+            found = None
+            for occ in range(0, 8):
+                try:
+                    st, bo, en = s.find_impl(kv['header'], occ)
+                except LostAnchor:
+                    break
+                if re.search(r'\bfn\s+' + re.escape(kv['has']) + r'\b', s.blank[bo:en]):
+                    found = (st, bo, en)
+                    break
+            if not found:
+                raise LostAnchor('impl %r holding fn %s not found' % (kv['header'], kv['has']))
+            st, bo, en = found
+        else:
+            st, bo, en = s.find_impl(kv['header'], int(kv.get('nth', 0)))
         head = s.text[st:bo]
         self.items.append(dict(label='impl-header ' + X.norm(kv['header']), file=kv['file'], digest=X.digest(X.norm(head))))
         if 'as' in kv:
@@ -379,16 +394,31 @@ class Unit:
 
     def get_fn_text(self, kv):
         s = self.source_for(kv)
-        lo, hi = s.container_range(kv.get('in', ''))
-        a, k, e = s.find_fn(kv['name'], lo, hi, int(kv.get('nth', 0)))
-        return s.text[k:e], s.text[a:k]
+        top = kv.get('in', '') == 'top'
+        anchor = '' if top else kv.get('in', '')
+        # several impl blocks may share one header (e.g. a cfg-guarded hook impl): take the first that holds the fn
+        last_err = None
+        for occ in range(0, 6):
+            a_ = anchor
+            if occ and anchor and '#' not in anchor.split('>>')[-1]:
+                a_ = anchor + '#%d' % occ
+            elif occ:
+                break
+            try:
+                lo, hi = s.container_range(a_)
+                a, k, e = s.find_fn(kv['name'], lo, hi, int(kv.get('nth', 0)), top_only=top)
+                return s.text[k:e], s.text[a:k]
+            except LostAnchor as ex:
+                last_err = ex
+                continue
+        raise last_err
 
     def do_fn(self, kv, sections, vacuity=False):
         text, prefix = self.get_fn_text(kv)
         label = kv.get('label') or ((kv.get('in', '') + '::' if kv.get('in') else '') + kv['name'])
         self.items.append(dict(label='fn ' + label, file=kv['file'], digest=X.digest(text)))
         self.rules.hit('R-attr', len(re.findall(r'#\[|\bpub\b', X.blank_comments(prefix))))
-        rules = set(filter(None, kv.get('rules', '').split(',')))
+        rules = set(filter(None, re.split(r',(?=R-)', kv.get('rules', ''))))
         # always-on local rules
         text = rule_unchecked(text, self.rules)
         text = rule_unsafe_block(text, self.rules)
